@@ -149,11 +149,42 @@ func (g *Gen) anyPRL() []byte {
 	return l
 }
 
+// anyExtra: client-supplied options a server might honour: requested lease time (51: 0, 1 s, 60 s, the
+// subnet's, longer, 0xffffffff), maximum message size (57), host name (12: empty, short, 255 bytes),
+// vendor class (60); usually none.
+func (g *Gen) anyExtra() []byte {
+	r := g.R
+	var e []byte
+	if r.Chance(35) {
+		v := uint32(r.Pick(0, 1, 60, 14400, 86400, 0xffffffff))
+		e = append(e, 51, 4, byte(v>>24), byte(v>>16), byte(v>>8), byte(v))
+	}
+	if r.Chance(12) {
+		v := r.Pick(0, 300, 576, 1500)
+		e = append(e, 57, 2, byte(v>>8), byte(v))
+	}
+	if r.Chance(12) {
+		n := r.Pick(0, 4, 255)
+		e = append(e, 12, byte(n))
+		for i := 0; i < n; i++ {
+			e = append(e, 'a'+byte(i%26))
+		}
+	}
+	if r.Chance(8) {
+		e = append(append(e, 60, 8), "MSFT 5.0"...)
+	}
+	return e
+}
+
 func p32(x uint32) *uint32 { return &x }
 
 func (g *Gen) msg(kind byte, id *ident) Msg {
 	g.cur = id
-	return Msg{Kind: kind, Chaddr: g.macs[id.mac], Xid: id.xid, HasCid: id.hasCid, Cid: id.cid}
+	m := Msg{Kind: kind, Chaddr: g.macs[id.mac], Xid: id.xid, HasCid: id.hasCid, Cid: id.cid}
+	if g.Level > 1 && (kind == 'D' || kind == 'R') {
+		m.Extra = g.anyExtra()
+	}
+	return m
 }
 
 func (g *Gen) discover(id *ident, newXid bool, req *uint32) string {
@@ -345,6 +376,12 @@ func (g *Gen) next() string {
 				m.Ciaddr = g.anyIP()
 			}
 			m.Src = m.Ciaddr
+			if r.Chance(15) { // option 50 together with ciaddr
+				m.Req = p32(m.Ciaddr)
+				if r.Bool() {
+					m.Req = p32(g.anyIP())
+				}
+			}
 		case q < 74: // REBIND (IP source is the limited broadcast in the code's reading)
 			m.Ciaddr = id.ack
 			if m.Ciaddr == 0 || r.Chance(20) {
@@ -722,7 +759,12 @@ func Exhaustive(r *lib.Run, kind string, mode int, depth int, nTokens int) {
 		Msg{Kind: 'R', Chaddr: m1, Xid: 0x11111111, Req: &a2}.Token(), // reboot
 		Msg{Kind: 'R', Chaddr: m1, Xid: 0x44444444, Req: &a2, Sid: &c.HostIP}.Token(), // SELECT under a foreign xid
 	}
+	toks = append(toks, Msg{Kind: 'R', Chaddr: m1, Xid: 0x11111111, Req: &a2, Sid: &c.HostIP, Extra: []byte{51, 4, 0, 0, 0, 1}}.Token(), "T,600")
 	toks[4], toks[16] = toks[16], toks[4] // keep the foreign-xid SELECT ...
+	toks[9], toks[17] = toks[17], toks[9] // ... the SELECT asking for a 1 s lease ...
+	toks[10], toks[18] = toks[18], toks[10] // ... a MinuteTicker 10 min later ...
+	toks[14], toks[17] = toks[17], toks[14] // ... RELEASE ...
+	toks[15], toks[18] = toks[18], toks[15] // ... and the expiry hook +30 s inside the short alphabets
 	toks[13], toks[16] = toks[16], toks[13] // ... and the renewal inside the short alphabets
 	if nTokens < len(toks) {
 		toks = toks[:nTokens]
